@@ -2,7 +2,7 @@
    (or a one-line instantiation) and followed by Print Assumptions.  One file per property, importing only
    what that property's statements need, so that a change which breaks one property's proof leaves the
    others' theorems checkable. *)
-From NTRIP Require Import Base Bits Time Classify Frame FrameSpec FrameProofs Net Pipe PipeFrames.
+From NTRIP Require Import Base Bits Time Classify Frame FrameSpec FrameProofs Net Pipe PipeFrames IncFrame PipeInc.
 From NTRIPGen Require Import GenConsts.
 
 (* ===================== C09 ===================== *)
@@ -58,12 +58,37 @@ Theorem C09_frames : forall t0 (input : list N) (k : nat) (live sync : nat -> bo
 Proof. exact pipeline_frames. Qed.
 Print Assumptions C09_frames.
 
+(* The framer as it really works (IncFrame.v): a machine that is given ONE BYTE AT A TIME - eating junk,
+   collecting the five-byte leader, collecting the rest of the frame - emits the messages each byte
+   completes and, at the end of the input, what is left; fed the input byte by byte it delivers exactly
+   what handle_stream delivers, handler state included.  With that machine as the framer process, every
+   schedule of the network delivers handle_stream's messages to every consumer. *)
+Theorem C09_framer_is_incremental : forall h input,
+  handle_stream h input = Ok (mall (h, PEat []) input).
+Proof. exact handle_stream_is_machine. Qed.
+Print Assumptions C09_framer_is_incremental.
+
+Theorem C09_incremental_pipeline : forall t0 (input : list N) (k : nat) (live sync : nat -> bool) cap0 cap1 caps,
+  (1 <= cap0)%nat -> (1 <= cap1)%nat -> length caps = k -> Forall (fun c => (1 <= c)%nat) caps ->
+  exists ms h', handle_stream (new_handler t0) input = Ok (ms, h') /\
+  exists n, forall m c,
+    steps _ (nstep _ _ _ (Pipe.prog N msg mstate mstep mflush k live sync) Pipe.sender Pipe.receiver (SkDone _ _ _)) m
+          (Pipe.init N msg mstate k cap0 cap1 caps input (new_handler t0, PEat [])) c ->
+    (m <= n)%nat /\
+    (final_config _ _ _ (Pipe.prog N msg mstate mstep mflush k live sync) Pipe.sender Pipe.receiver (SkDone _ _ _) c ->
+     forall i, (i < k)%nat -> sink_out N msg mstate c i = if live i then ms else []).
+Proof. exact pipeline_incremental. Qed.
+Print Assumptions C09_incremental_pipeline.
+
 (* The fan-out process of Pipe.v transcribes this loop of appcore.HandleMessagesUntilEOF:
      for i := range appCore.Channels { if appCore.Channels[i] != nil { appCore.Channels[i] <- message } }
    (the function's only send statement).  genfacts re-reads the source on every run and sets
-   fanout_all_non_nil accordingly; if the loop changes shape this obligation fails. *)
-Theorem C09_source_shape : fanout_all_non_nil = true.
-Proof. reflexivity. Qed.
+   fanout_all_non_nil accordingly; if the loop changes shape this obligation fails.  The framer process is a
+   machine driven by bytes alone: framer_is_byte_driven says that the frame-scanning functions of rtcm/handler
+   touch their input only through ByteChannel.GetNextByte / PushBack and that neither they nor rtcm/pushback
+   use select or package time (a framer that also acted on a timer would make the output depend on timing). *)
+Theorem C09_source_shape : fanout_all_non_nil = true /\ framer_is_byte_driven = true.
+Proof. split; reflexivity. Qed.
 Print Assumptions C09_source_shape.
 
 Example C09_example :
